@@ -773,6 +773,16 @@ Theorem C08_inherent_only_const : forall h i m, assemble [] h i m = anon_const h
 Proof. exact assemble_inherent. Qed.
 Print Assumptions C08_inherent_only_const.
 
+(* the helper impls refer to the helper trait by one bare identifier `_<Name><idx>`, whatever
+   path the block wrote for the main trait or the type (fix F33), so the reference resolves to the
+   helper trait inside the generated const block and to nothing outside it *)
+Theorem C08_helper_named_by_identifier : forall idx row lp segs init ls args,
+  split_last segs = Some (init, Node ls [args]) ->
+  exists args', helper_path idx row (Node lp segs) =
+                Node (K "Path" "") [Node (K "Seg" (helper_ident (ld ls) idx)) [args']].
+Proof. exact helper_path_bare. Qed.
+Print Assumptions C08_helper_named_by_identifier.
+
 Theorem C08_no_helper_leaks : forall user (invs : list (option string * list string)),
   declared (user ++ flat_map (fun inv => expansion_items (fst inv) (snd inv)) invs) =
   declared user ++ flat_map (fun inv => match fst inv with Some n => [n] | None => [] end) invs.
